@@ -99,7 +99,77 @@ def do_run(name, checks, seed=1):
     json.dump(meta, open(os.path.join(d, "meta.json"), "w"), indent=1)
 
 
+CANARIES = os.path.join(ROOT, "canaries")
+
+
+def do_import_canary(seed_dir, i, name):
+    """A behaviour-preserving change from a sub-agent: kept if it applies and the repo suite passes."""
+    patch = os.path.join(seed_dir, f"patch{i}.diff")
+    notes = os.path.join(seed_dir, f"notes{i}.md")
+    sh(f"git -C /repo worktree remove --force {SCRATCH}")
+    shutil.rmtree(SCRATCH, ignore_errors=True)
+    r = sh(f"git -C /repo worktree add --detach {SCRATCH} HEAD")
+    assert r.returncode == 0, r.stderr
+    try:
+        r = sh(f"git -C {SCRATCH} apply {patch}")
+        if r.returncode:
+            print("patch does not apply:", r.stderr)
+            return 1
+        t = sh(f"cd {SCRATCH} && PYTHONPATH={SCRATCH} /venv/bin/python -m pytest -q -p no:cacheprovider -n 12 2>&1 | tail -1")
+        print(t.stdout.strip())
+        if "passed" not in t.stdout or "failed" in t.stdout or "error" in t.stdout:
+            print("NOT CONFIRMED - not kept")
+            return 1
+        d = os.path.join(CANARIES, name)
+        os.makedirs(d, exist_ok=True)
+        shutil.copy(patch, os.path.join(d, "patch.diff"))
+        if os.path.exists(notes):
+            shutil.copy(notes, os.path.join(d, "notes.md"))
+        meta = {"name": name, "kind": "behaviour-preserving change (false-alarm canary)", "origin": "independent sub-agent asked for behaviour-preserving refactorings",
+                "claim": open(notes).read()[:1500] if os.path.exists(notes) else "", "confirmed": [f"repo test-suite with change: {t.stdout.strip()}"], "checks": {},
+                "base_commit": sh("git -C /repo rev-parse --short HEAD").stdout.strip()}
+        json.dump(meta, open(os.path.join(d, "meta.json"), "w"), indent=1)
+        print("kept as", d)
+        return 0
+    finally:
+        sh(f"git -C /repo worktree remove --force {SCRATCH}")
+        shutil.rmtree(SCRATCH, ignore_errors=True)
+
+
+def do_run_canary(name, checks, seed=1):
+    d = os.path.join(CANARIES, name)
+    meta = json.load(open(os.path.join(d, "meta.json")))
+    st = sh("git -C /repo status --porcelain --untracked-files=no").stdout.strip()
+    if st:
+        sys.exit("/repo has uncommitted changes; refusing to apply a change")
+    r = sh(f"git -C /repo apply {os.path.join(d, 'patch.diff')}")
+    if r.returncode:
+        print(f"{name}: patch no longer applies")
+        return
+    try:
+        env = dict(os.environ, VERIF_OUT=OUT, VERIF_SEED=str(seed))
+        for pid in checks:
+            t = time.time()
+            p = subprocess.run(["./check", pid, "--tier", "quick"], cwd=ROOT, env=env, text=True, capture_output=True)
+            subs = [ln.strip()[:200] for ln in p.stdout.splitlines() if ln.startswith("  [")]
+            meta["checks"][pid] = {"rc": p.returncode, "seed": seed, "secs": round(time.time() - t), "first": subs[:2]}
+            print(f"{name:28s} {pid} rc={p.returncode} {round(time.time()-t):4d}s {subs[:1]}", flush=True)
+    finally:
+        sh("git -C /repo checkout -- .")
+        shutil.rmtree(OUT, ignore_errors=True)
+    json.dump(meta, open(os.path.join(d, "meta.json"), "w"), indent=1)
+
+
 def main():
+    if sys.argv[1] == "import-canary":
+        sys.exit(do_import_canary(sys.argv[2], sys.argv[3], sys.argv[4]))
+    if sys.argv[1] == "run-canary":
+        names = sorted(os.listdir(CANARIES)) if sys.argv[2] == "all" else sys.argv[2].split(",")
+        allc = [f"C{i:02d}" for i in range(1, 17)]
+        for n in names:
+            if os.path.exists(os.path.join(CANARIES, n, "meta.json")):
+                do_run_canary(n, allc)
+        return
     if sys.argv[1] == "import":
         sys.exit(do_import(sys.argv[2], sys.argv[3], sys.argv[4], sys.argv[5]))
     if sys.argv[1] == "run":
